@@ -1,5 +1,7 @@
 (* C13 - executable model of the interval/parameter selection of BSpline<K,G>::operator()
-   (include/smooth/spline/detail/bspline_impl.hpp:55-70), t_min (l.37-40), t_max (l.43-46), over Q.
+   (include/smooth/spline/detail/bspline_impl.hpp:55-72), t_min (l.35-39), t_max (l.41-45), over Q.
+   Transcribes the code as of /repo commit 967e2a1 (the quotient is clamped to [-1, size()] BEFORE the
+   conversion to int64_t).
    Times are exact rationals; `double` rounding is NOT modelled (the correspondence run uses inputs for
    which the double computation is exact and compares exactly; see notes/C13.md).
    No proofs in this file. *)
@@ -13,8 +15,9 @@ Definition qtrunc (q : Q) : Z := Z.quot (Qnum q) (Zpos (Qden q)).
 Definition two63 : Z := 9223372036854775808%Z.
 
 (* A double outside the int64 range makes the cast undefined behaviour; what g++ emits on x86-64 is
-   cvttsd2si, which returns INT64_MIN ("integer indefinite") for every out-of-range operand.  The model
-   reproduces that observable (checked by the correspondence run). *)
+   cvttsd2si, which returns INT64_MIN ("integer indefinite") for every out-of-range operand.  The cast is
+   still in the code (l.58), so it is still in the model; its operand is now confined to [-1, N], hence the
+   out-of-range branch is reachable only for N >= 2^63 (Proofs/C13_Idx.v: idx_raw_no_overflow). *)
 Definition cast64 (z : Z) : Z :=
   if (Z.leb (- two63) z && Z.ltb z two63)%bool then z else (- two63)%Z.
 
@@ -23,20 +26,19 @@ Definition Qltb (a b : Q) : bool := negb (Qle_bool b a).
 (* std::clamp(v, lo, hi) = (v < lo) ? lo : (hi < v) ? hi : v *)
 Definition qclamp (v lo hi : Q) : Q := if Qltb v lo then lo else if Qltb hi v then hi else v.
 
-(* bspline_impl.hpp:58   int64_t istar = static_cast<int64_t>((static_cast<double>(t) - m_t0) / m_dt);
-   fixed = false : the code as it is.
-   fixed = true  : the proposed repair notes/C13-huge-t.patch: the quotient is clamped to [-1, N] (in double)
-                   before the cast, so the cast is always defined. *)
-Definition idx_raw (fixed : bool) (N : Z) (s : Q) : Z :=
-  if fixed then qtrunc (qclamp s (-1) (inject_Z N)) else cast64 (qtrunc s).
+(* bspline_impl.hpp:58-59
+     int64_t istar = static_cast<int64_t>(
+       std::clamp((static_cast<double>(t) - m_t0) / m_dt, -1., static_cast<double>(m_ctrl_pts.size())));
+   s = (t - t0)/dt, N = m_ctrl_pts.size(): clamp to [-1, N] first, then truncate toward zero / convert. *)
+Definition idx_raw (N : Z) (s : Q) : Z := cast64 (qtrunc (qclamp s (-1) (inject_Z N))).
 
-(* bspline_impl.hpp:58-70.  K = degree, N = m_ctrl_pts.size().  Result: (istar, u).
+(* bspline_impl.hpp:58-72.  K = degree, N = m_ctrl_pts.size().  Result: (istar, u).
    u is kept in canonical form (Qred) - semantically the identity on rationals. *)
-Definition bs_select (fixed : bool) (K N : Z) (t0 dt t : Q) : Z * Q :=
-  let istar := idx_raw fixed N ((t - t0) / dt) in                       (* l.58 *)
-  if (istar <? 0)%Z then (0%Z, 0)                                       (* l.62-64 *)
-  else if (N <? istar + (K + 1))%Z then ((N - K - 1)%Z, 1)              (* l.65-67 *)
-  else (istar, Qred (qclamp ((t - t0 - inject_Z istar * dt) / dt) 0 1)). (* l.69 *)
+Definition bs_select (K N : Z) (t0 dt t : Q) : Z * Q :=
+  let istar := idx_raw N ((t - t0) / dt) in                             (* l.58-59 *)
+  if (istar <? 0)%Z then (0%Z, 0)                                       (* l.63-65 *)
+  else if (N <? istar + (K + 1))%Z then ((N - K - 1)%Z, 1)              (* l.66-68 *)
+  else (istar, Qred (qclamp ((t - t0 - inject_Z istar * dt) / dt) 0 1)). (* l.70 *)
 
-Definition bs_tmin (t0 : Q) : Q := t0.                                        (* l.39 *)
-Definition bs_tmax (K N : Z) (t0 dt : Q) : Q := t0 + inject_Z (N - K) * dt.   (* l.45 *)
+Definition bs_tmin (t0 : Q) : Q := t0.                                        (* l.38 *)
+Definition bs_tmax (K N : Z) (t0 dt : Q) : Q := t0 + inject_Z (N - K) * dt.   (* l.44 *)
